@@ -638,6 +638,13 @@ func (r *FnRun) backEdge(li *loopInfo, from *ssa.BasicBlock, st *State) {
 		over[phi] = r.val(phi.Edges[pi])
 	}
 	env := r.loopEnv(st, over)
+	for i, sa := range li.Spec.StepAsserts {
+		g := env.EvalBool(sa.E)
+		if r.root.wantClause(sa) {
+			r.oblige(st, "step-assert", fmt.Sprintf("loop%d.%d", li.Ordinal, i+1), g, h.Instrs[0].Pos(), "checkpoint at the back edge: "+sa.Text, sa.Tags)
+		}
+		r.assume(st, g)
+	}
 	for i, inv := range li.Spec.Inv {
 		if !r.root.wantClause(inv) {
 			continue
